@@ -181,7 +181,11 @@ def ast_matches_model(a: str, b: str, c: str) -> bool:
     w, exp = build(SHAPE, a, b, c)
     idgen = IdGenerator()
     idgen._id_counter = START
-    got = parse_lines(w.lines, idgen)
+    lines = list(w.lines)
+    if param("no_final_eol", False):
+        # presence or absence of a final line break does not change the AST
+        lines[-1] = lines[-1][:-len(EOL)]
+    got = parse_lines(lines, idgen)
     sym.reach("parsed")
     ok = astgen.same(got, exp)
     # C11: ids are dense from the generator's counter
